@@ -102,6 +102,20 @@ CLAIMED['C19'] = dict(
          'received context ids are negotiated ones',
     technique='contract-based deductive verification: loop invariants/havoc, ghost traces, z3/cvc5')
 
+CLAIMED['C12'] = dict(
+    text='Deductive proof, modular: every one of the 23 decoders is proved total on ARBITRARY stream content (returns an '
+         'instance having consumed at least one byte, or raises one of struct.error / UnicodeDecodeError / '
+         'PDUProcessingError; decode loops terminate by the variant |remaining bytes|), nested decoders seen through the '
+         'same contract; _process_incoming and _check_network (every state) with an arbitrary receive buffer let none of '
+         'these escape and turn them into Evt19; DT-2 / AR-6 survive a DIMSE decoder that may raise any Exception; recv() '
+         'is only called on a socket that select() reported readable in the same call (blocking typestate); the state '
+         'table is total on peer-caused events in every state in which the socket is read.',
+    ref='4/C12',
+    note=TRUST + 'recv/select model (any chunk, EOF, error; nondeterministic readiness); pydicom may raise anything; the '
+         'well-formed A-ABORT of the Evt19 cells is the wire obligation of C04; OS-level liveness assumed',
+    technique='contract-based deductive verification: totality contracts, exception-escape obligations, loop variants, '
+              'typestate of blocking calls, z3/cvc5')
+
 NOT_YET = {
 }
 
